@@ -695,7 +695,7 @@ pub fn run(rc: &mut RunCtx) {
     }
     rc.note("targeted_sequences", json!(targeted.len()));
     // (2) random sequences
-    let n = rc.n(1200, 40000);
+    let n = rc.n(4000, 50000);
     for i in 0..n {
         let id = format!("rand:{}", i);
         if !rc.mine(&id) {
